@@ -61,7 +61,7 @@ def _anchor_owners():
 
 def common(ctx):
     """Generic rules applied, in both tiers, to every function the property's own check placed an obligation on."""
-    from .rules import r_default_dim_table, r_scalar_dim_bipartite, r_chunk_tail, r_oneshot_iterator, r_fresh_result, r_values_not_rounded, r_dense_into_kron, r_no_npmatrix, r_hermitian_solver_operand, r_roots_rounded, r_scalar_dim_expand, r_subsystem_count
+    from .rules import r_count_after_expansion, r_default_dim_table, r_scalar_dim_bipartite, r_chunk_tail, r_oneshot_iterator, r_fresh_result, r_values_not_rounded, r_dense_into_kron, r_no_npmatrix, r_hermitian_solver_operand, r_roots_rounded, r_scalar_dim_expand, r_subsystem_count
 
     ctx.rule("R-SHAPE", "the subsystem count of a two-row dimension table is its number of columns; inferred dimensions (roots of sizes) are rounded")
     ctx.rule("R-EFFECT", "array-returning functions are not memoised: every call returns a fresh object")
@@ -98,6 +98,7 @@ def common(ctx):
         if f is not None:
             r_scalar_dim_expand(ctx, f)
             r_scalar_dim_bipartite(ctx, f)
+            r_count_after_expansion(ctx, f)
             if not (ctx.prop == "C03" and f.name == "realignment"):  # (C03 has its own, older instance of this rule for realignment)
                 r_default_dim_table(ctx, f)
             r_fresh_result(ctx, f)
@@ -125,6 +126,7 @@ def common(ctx):
             ch = chain_of.get(g.qualname, [])
             r_scalar_dim_expand(ctx, g, chain=ch)
             r_scalar_dim_bipartite(ctx, g, chain=ch)
+            r_count_after_expansion(ctx, g, chain=ch)
             r_default_dim_table(ctx, g, chain=ch)
             r_chunk_tail(ctx, g, chain=ch)
             r_oneshot_iterator(ctx, g, chain=ch)
